@@ -50,11 +50,20 @@ def run(ctx):
   ]
   svc.run_rounds(ctx, 'C11', rounds(ctx), walks(ctx))
   c11_pareto.run(ctx)
+  import c11_survival
+  import tlc
+  with tlc.Scratch('c11s') as d:
+    sl = c11_survival.run(ctx, d)
+  ctx.coverage['states'] = ctx.coverage.get('states', 0) + sl['states']
+  ctx.coverage['traces_validated_against_impl'] = ctx.coverage.get('traces_validated_against_impl', 0) + sl['replayed']
   c11_best.run(ctx)
 
 
 def replay(ctx, case):
   k = case['case'].get('kind')
+  if k == 'survival':
+    import c11_survival
+    return c11_survival.replay(ctx, case['case'])
   if k == 'pareto':
     import c11_pareto
     c11_pareto.run(ctx, only=case['case'])
